@@ -140,6 +140,25 @@ def check(run, model, tier):
                     out.add(n.attr)
         return out
     lookup_w, parents_w = regs_used(rs), regs_used(rp)
+    if len(lookup_w) > 1:
+        # the registry proper is the table that receives the callback itself; any further table the registration touches is a second source of truth
+        fnp_ = rs.params[3] if len(rs.params) > 3 else None
+        stores_ = set()
+        for n_ in walk_shallow(rs.node):
+            if isinstance(n_, ast.Assign) and isinstance(n_.value, ast.Name) and n_.value.id == fnp_:
+                for t_ in n_.targets:
+                    b_ = t_
+                    while isinstance(b_, ast.Subscript):
+                        b_ = b_.value
+                    if isinstance(b_, ast.Attribute) and isinstance(b_.value, ast.Name) and b_.value.id == rs.params[0]:
+                        stores_.add(b_.attr)
+        if len(stores_) == 1:
+            extra_ = sorted(lookup_w - stores_)
+            run.inst('TABLE.registries', rs, 'the callback registry is the only table behind signal_callback', False,
+                     'register_signal_callback keeps a second table beside %s (%s): the run-time lookup can answer from that table (a cache of resolved handlers, filled by an unsynchronised '
+                     'check-then-store) while the registry - and the text to_code produces from it - says something else; a handler registered while the chart is resolving the same '
+                     '(state, signal) pair is then never used' % (sorted(stores_)[0], ', '.join(extra_)), obligation=True)
+            lookup_w = set(stores_)
     if len(lookup_w) != 1 or len(parents_w) != 1:
         raise AnalysisError('registration methods do not write exactly one registry each (%s, %s)' % (lookup_w, parents_w))
     LK, PR = lookup_w.pop(), parents_w.pop()
